@@ -152,6 +152,11 @@ class C10(Prop):
             finite_in = all(torch.isfinite(g).all() for g in grads0.values() if g is not None)
             try:
                 pre.step()
+            except torch.linalg.LinAlgError as e:
+                # an exactly singular damped factor can only arise from rounding in a low-precision factor dtype (the inverse
+                # method adds the damping in that dtype); that is a numerical-domain matter (C01), not a non-interference one
+                labels['linalg_error'] = True
+                return passed(False, labels, {'note': str(e)[:200]})
             except Exception as e:  # noqa: BLE001
                 return violation(f'op {i}: step() raised {type(e).__name__}: {e}', 'exception', labels=labels)
             for n, p in model.named_parameters():
